@@ -90,3 +90,23 @@ def __getattr__(name):        # noqa: F811
             f = _cache[name] = _make_sig(name)
         return f
     return _old_getattr(name)
+
+
+# ---- import targets (C07): `!import vfrec.imp_<n>` logs the import
+
+class _Imported:
+    def __init__(self, n):
+        self.n = n
+
+    def __repr__(self):
+        return f'<imported {self.n}>'
+
+
+_old_getattr2 = __getattr__
+
+
+def __getattr__(name):        # noqa: F811
+    if name.startswith('imp_') and name[4:].isdigit():
+        LOG.append(('import', int(name[4:]), (), {}, []))
+        return _Imported(int(name[4:]))
+    return _old_getattr2(name)
